@@ -52,8 +52,9 @@ def cells(tier, seed):
             for Rq in (1, 3):
                 out.append({"part": "linear", "ck": ck, "Dx": Dx, "Dy": Dy, "Rq": Rq, "reps": reps,
                             "group": ["l", Dx, Dy, Rq], "cost": 1.0})
-    fd = [(1, 1, 1), (1, 2, 2), (2, 1, 2), (2, 2, 3)] if tier == "quick" else \
-        [(1, 1, 1), (1, 2, 2), (2, 1, 2), (2, 2, 3), (1, 3, 3), (2, 3, 1), (1, 1, 3), (2, 2, 2)]
+    fd = [(1, 1, 1), (1, 2, 2), (2, 1, 2), (2, 2, 3), (1, 2, 4)] if tier == "quick" else \
+        [(1, 1, 1), (1, 2, 2), (2, 1, 2), (2, 2, 3), (1, 3, 3), (2, 3, 1), (1, 1, 3), (2, 2, 2),
+         (1, 2, 4), (2, 2, 5), (1, 1, 6)]
     for ak in ("lrbf", "lsem"):
         for (Dx, Dy, Dk) in fd:
             for Rq in (1, 2):
